@@ -7,6 +7,7 @@
 //! Every family generates an *op line*, then executes the real code by parsing that line, so
 //! a replay goes through exactly the same path as the original run.
 mod fam_access;
+mod fam_dyn;
 mod fam_admission;
 mod fam_liq;
 mod fam_math;
@@ -64,6 +65,7 @@ pub fn families() -> Vec<Box<dyn Family>> {
     fam_access::register(&mut v);
     fam_position::register(&mut v);
     fam_admission::register(&mut v);
+    fam_dyn::register(&mut v);
     v
 }
 
